@@ -124,6 +124,91 @@ def check_C02(tier, seed):
     return rep.finish()
 
 
+# =============================================================================================== C11
+WRITER_ACTIONS = ["Write", "IntWrite", "PtrWrite", "Flush", "FlushDefer", "Check", "Drop", "StepFill", "StepFlushBuf",
+                  "StepFlushDone", "StepDirect", "StepDirectDone", "StepCheck", "Return", "WADone", "SinkAccept",
+                  "SinkIntr", "SinkFail"]
+
+
+def writer_histories(rep, tier, seed, prefix, shards, per_shard, ops=30, big=True):
+    _clean_traces(prefix)
+    paths, procs = [], []
+    exe = vlib.build_harness(False)
+    for s in range(shards):
+        p = os.path.join(TRACES, "%s%d.ndjson" % (prefix, s))
+        paths.append(p)
+        cmd = [exe, "writer-hist", "--out", p, "--seed", str(seed), "--first", str(s * per_shard),
+               "--count", str(per_shard), "--ops", str(ops)] + ([])
+        procs.append(subprocess.Popen(cmd, cwd=vlib.ROOT, stdout=subprocess.PIPE, stderr=subprocess.PIPE, text=True))
+    for pr in procs:
+        out, err = pr.communicate(timeout=1800)
+        if pr.returncode != 0:
+            raise ToolError("vh writer-hist failed: %s" % err[-1500:])
+    res = validate_traces(prefix, "Trace_Writer", "Trace_Writer.cfg", paths)
+    _report_rejects(rep, "Trace_Writer", res["rejected"],
+                    "vh writer-hist --seed %d (history id in reset record); ./check %s --replay <this file>" % (seed, rep.prop))
+    runs, nt, sample = _scan_runs(paths, lambda rs: any(r.get("ev") == "sink" and r.get("kind") == "n" for r in rs)
+                                  and sum(1 for r in rs if r.get("ev") == "wcall") >= 3)
+    rep.cov["traces_validated_against_impl"] = rep.cov.get("traces_validated_against_impl", 0) + runs - len(res["rejected"])
+    rep.cov["trace_records_validated"] = rep.cov.get("trace_records_validated", 0) + res["states"]
+    rep.cov["evaluations"] = rep.cov.get("evaluations", 0) + runs
+    rep.cov["distinct_nontrivial"] = rep.cov.get("distinct_nontrivial", 0) + nt
+    if sample:
+        rep.cov["samples"].append({"writer_history": [json.dumps(r, separators=(",", ":"))[:300] for r in sample[:25]]})
+    _clean_traces(prefix)
+    return runs
+
+
+def mc_writer(rep, tier):
+    if tier == QUICK:
+        res = tlc_mc("mc_writer", "MC_Writer", "MC_Writer_quick.cfg", timeout=600)
+    else:
+        res = tlc_mc("mc_writer", "MC_Writer", "MC_Writer_thorough.cfg", timeout=3000, heap="40g")
+    mc_must_pass(rep, res, "MC_Writer")
+    vacuity_check(res, WRITER_ACTIONS, "MC_Writer")
+    return res
+
+
+def check_C11(tier, seed):
+    rep = Report("C11", tier, seed, "model_checking")
+    mc_writer(rep, tier)
+    if tier == QUICK:
+        writer_histories(rep, tier, seed, "c11_", 12, 400)
+    else:
+        writer_histories(rep, tier, seed, "c11_", 14, 6000, ops=50)
+    rep.cov["rule"] = ("model: exhaustive BFS of DeferredWriter (capacity 4, every fill/flush/direct-write path, every sink "
+                       "answer) incl. refinement of WriterAbs; traces: random operation histories of the real DeferredWriter "
+                       "(small capacities through the cfg-gated constructor, default 16 KiB capacity in one shard) over a "
+                       "scheduled sink, validated record by record against WriterAbs; integers are logged as sign+hex and "
+                       "the specification computes the canonical decimal text; non-trivial iff the sink accepted bytes and "
+                       "the history has at least 3 calls, distinct by content")
+    rep.assumptions += ["Write::flush of the sink is never called by DeferredWriter; the property speaks of bytes received",
+                        "a sink that panics is modelled in DeferredWriter.tla only through the `panicked` flag"]
+    return rep.finish()
+
+
+# =============================================================================================== C14
+def check_C14(tier, seed):
+    rep = Report("C14", tier, seed, "model_checking")
+    mc_reader(rep, tier)
+    mc_writer(rep, tier)
+    if tier == QUICK:
+        reader_histories(rep, tier, seed + 1000, "c14r_", True, 8, 500)
+        writer_histories(rep, tier, seed + 1000, "c14w_", 4, 300, big=False)
+    else:
+        reader_histories(rep, tier, seed + 1000, "c14r_", True, 14, 6000, ops=60, maxlen=96)
+        writer_histories(rep, tier, seed + 1000, "c14w_", 6, 4000, big=False)
+    rep.cov["rule"] = ("model: IndexSafe (pos_in_buf + valid_len <= buf.len(), the precondition of every get_unchecked) and "
+                       "LenLeCap on the design models, with the panicking calls (advance past the buffer, source overrun) as "
+                       "actions that must leave every variable unchanged; traces: the C02/C11 histories extended with "
+                       "advance(n)/advance_with_buf(n) for n > buf_len() and with a source that claims more bytes than "
+                       "offered, each panic caught and the exposed state compared with the specification afterwards, in a "
+                       "build with debug assertions and overflow checks")
+    rep.assumptions += ["memory level (AddressSanitizer/Miri) is not observed: the specification sees indices, lengths and "
+                        "exposed content only (DESIGN.md §8)"]
+    return rep.finish()
+
+
 # =============================================================================================== replay / selftest
 def replay(prop, path):
     obj = json.load(open(path))
